@@ -156,4 +156,231 @@ theorem readDirP_walk (img : Dev) (bs : Nat) (hbs : 255 ≤ bs) (t : PTree) (hwf
     rw [if_pos ⟨rfl, rfl, rfl⟩, hk]
     rfl
 
+/-! ### reading back what disjoint writes put on a blank device -/
+
+theorem readAt_take (d : Dev) (off len k : Nat) (h : k ≤ len) : (readAt d off len).take k = readAt d off k := by
+  apply List.ext_getElem
+  · simp; omega
+  · intro i h1 h2
+    simp [readAt]
+
+theorem readAt_applyWrs_disjoint (d : Dev) (ws : List Wr) (off len : Nat)
+    (h : ∀ w ∈ ws, off + len ≤ w.off ∨ w.off + w.data.length ≤ off) :
+    readAt (applyWrs d ws) off len = readAt d off len := by
+  apply List.ext_getElem
+  · simp
+  · intro i h1 _
+    simp only [readAt, List.getElem_map, List.getElem_range]
+    apply applyWrs_frame
+    intro w hw
+    simp at h1
+    have := h w hw
+    omega
+
+/-- after pairwise disjoint writes every write reads back as written -/
+theorem applyWrs_read_back (d : Dev) (ws : List Wr) (hd : ws.Pairwise WrDisjoint) :
+    ∀ w ∈ ws, readAt (applyWrs d ws) w.off w.data.length = w.data := by
+  induction ws generalizing d with
+  | nil => intro w hw; simp at hw
+  | cons x ws ih =>
+    rw [List.pairwise_cons] at hd
+    intro w hw
+    simp only [applyWrs, List.foldl_cons]
+    simp only [List.mem_cons] at hw
+    rcases hw with rfl | hw
+    · have := readAt_applyWrs_disjoint (applyWr d w) ws w.off w.data.length (by
+        intro y hy
+        have := hd.1 y hy
+        unfold WrDisjoint at this
+        omega)
+      simp only [applyWrs] at this
+      rw [this, readAt_applyWr_same]
+    · have := ih (applyWr d x) hd.2 w hw
+      simpa [applyWrs] using this
+
+/-- … and so does every prefix of a write -/
+theorem applyWrs_read_prefix (d : Dev) (ws : List Wr) (hd : ws.Pairwise WrDisjoint) (w : Wr) (hw : w ∈ ws)
+    (k : Nat) (hk : k ≤ w.data.length) : readAt (applyWrs d ws) w.off k = w.data.take k := by
+  rw [← applyWrs_read_back d ws hd w hw, readAt_take _ _ _ _ hk]
+
+/-- extents that do not overlap as block ranges give writes that do not overlap as byte ranges -/
+theorem extent_writes_disjoint (bs : Nat) (a b : Nat × Nat) (da db : Bytes) (h : a.1 + a.2 ≤ b.1)
+    (hla : da.length ≤ a.2 * bs) : WrDisjoint ⟨a.1 * bs, da⟩ ⟨b.1 * bs, db⟩ := by
+  left
+  have := Nat.mul_le_mul_right bs h
+  rw [Nat.add_mul] at this
+  simp only
+  omega
+
+theorem extents_writes_disjoint (bs : Nat) (l : List ((Nat × Nat) × Bytes))
+    (hp : l.Pairwise (fun a b => a.1.1 + a.1.2 ≤ b.1.1)) (hl : ∀ x ∈ l, x.2.length ≤ x.1.2 * bs) :
+    (l.map fun x => (⟨x.1.1 * bs, x.2⟩ : Wr)).Pairwise WrDisjoint := by
+  rw [List.pairwise_map]
+  exact hp.imp_of_mem (fun {a b} ha _ hab => extent_writes_disjoint bs a.1 b.1 a.2 b.2 hab (hl a ha))
+
+theorem padBlock_take (bs : Nat) (b : Bytes) : (padBlock bs b).take b.length = b := by simp [padBlock]
+
+theorem padBlock_length_ge (bs : Nat) (b : Bytes) : b.length ≤ (padBlock bs b).length := by simp [padBlock]
+
+/-! ### the whole image -/
+
+/-- the image Finalize writes shows the tree, provided its writes are pairwise disjoint -/
+theorem image_holds (i : ImageIn) (hdisj : i.writes.Pairwise WrDisjoint)
+    (hdirs : ∀ d, d < i.t.n → (i.t.ent d).isDir = true → d ∈ i.dirs)
+    (hfiles : ∀ c, c < i.t.n → (i.t.ent c).isDir = false → c ∈ i.files)
+    (hsz : ∀ d ∈ i.dirs, (i.t.ent d).size = (i.t.dirBytes i.bs d).length)
+    (hfsz : ∀ f ∈ i.files, (i.t.ent f).size = (i.t.ent f).content.length) :
+    Holds i.image i.bs i.t := by
+  refine ⟨?_, ?_⟩
+  · intro d hd hdir
+    have hm := hdirs d hd hdir
+    have hw : (⟨(i.t.ent d).loc * i.bs, padBlock i.bs (i.t.dirBytes i.bs d)⟩ : Wr) ∈ i.writes := by
+      exact List.mem_cons_of_mem _ (List.mem_append_left _ (List.mem_append_left _ (List.mem_map.2 ⟨d, hm, rfl⟩)))
+    have := applyWrs_read_prefix blank i.writes hdisj _ hw (i.t.ent d).size (by
+      rw [hsz d hm]; exact padBlock_length_ge _ _)
+    simp only at this
+    rw [ImageIn.image, this, hsz d hm, padBlock_take]
+  · intro c hc hfile
+    have hm := hfiles c hc hfile
+    have hw : (⟨(i.t.ent c).loc * i.bs, padBlock i.bs (i.t.ent c).content⟩ : Wr) ∈ i.writes := by
+      exact List.mem_cons_of_mem _ (List.mem_append_left _ (List.mem_append_right _ (List.mem_append_right _
+        (List.mem_map.2 ⟨c, hm, rfl⟩))))
+    have := applyWrs_read_prefix blank i.writes hdisj _ hw (i.t.ent c).size (by
+      rw [hfsz c hm]; exact padBlock_length_ge _ _)
+    simp only at this
+    rw [ImageIn.image, this, hfsz c hm, padBlock_take]
+
+theorem image_pvd (i : ImageIn) (hdisj : i.writes.Pairwise WrDisjoint) (hp : i.pvd.WF) :
+    readAt i.image (16 * i.bs) 2048 = encodePVD i.pvd := by
+  have hw : (⟨16 * i.bs, encodePVD i.pvd⟩ : Wr) ∈ i.writes := by
+    simp [ImageIn.writes]
+  have := applyWrs_read_back blank i.writes hdisj _ hw
+  simp only [encodePVD_length i.pvd hp] at this
+  exact this
+
+theorem reader_on_image (i : ImageIn) (fuel : Nat) (hbs : 255 ≤ i.bs) (hwf : i.t.WF) (hp : i.pvd.WF)
+    (hpbs : i.pvd.blocksize = i.bs) (hroot : i.pvd.root = i.t.selfRec 0) (h0 : 0 < i.t.n)
+    (hrd : (i.t.ent 0).isDir = true)
+    (hdirs : ∀ d, d < i.t.n → (i.t.ent d).isDir = true → d ∈ i.dirs)
+    (hfiles : ∀ c, c < i.t.n → (i.t.ent c).isDir = false → c ∈ i.files)
+    (hsz : ∀ d ∈ i.dirs, (i.t.ent d).size = (i.t.dirBytes i.bs d).length)
+    (hfsz : ∀ f ∈ i.files, (i.t.ent f).size = (i.t.ent f).content.length)
+    (hdisj : i.writes.Pairwise WrDisjoint) (hfit : i.t.Fits fuel 0) :
+    readImageP i.image (16 * i.bs) fuel = some (i.pvd, i.t.walk fuel [] 0) := by
+  have hh := image_holds i hdisj hdirs hfiles hsz hfsz
+  unfold readImageP
+  rw [image_pvd i hdisj hp, decode_encodePVD i.pvd hp]
+  simp only [hroot, PTree.selfRec, if_true, hpbs]
+  have := readDirP_walk i.image i.bs hbs i.t hwf hh fuel [] 0 h0 hrd hfit
+  simp only [PTree.recOf]
+  rw [this]
+  rfl
+
+/-! ### the layout's placement makes the writes disjoint -/
+
+theorem seqWr_bounds (bs : Nat) (s : Nat) (ds : List Bytes) :
+    ∀ w ∈ seqWr bs s ds, s * bs ≤ w.off := by
+  induction ds generalizing s with
+  | nil => intro w hw; simp [seqWr] at hw
+  | cons b r ih =>
+    intro w hw
+    simp only [seqWr, List.mem_cons] at hw
+    rcases hw with rfl | hw
+    · exact Nat.le_refl _
+    · have := ih (s + blocksFor b.length bs) w hw
+      have h2 := Nat.mul_le_mul_right bs (Nat.le_add_right s (blocksFor b.length bs))
+      omega
+
+theorem seqWr_pairwise (bs : Nat) (hbs : 0 < bs) (s : Nat) (ds : List Bytes) :
+    (seqWr bs s ds).Pairwise (fun a b => a.off + a.data.length ≤ b.off) := by
+  induction ds generalizing s with
+  | nil => simp [seqWr]
+  | cons b r ih =>
+    simp only [seqWr, List.pairwise_cons]
+    refine ⟨?_, ih _⟩
+    intro w hw
+    have h1 := seqWr_bounds bs (s + blocksFor b.length bs) r w hw
+    have h2 := (blocksFor_covers b.length bs hbs).1
+    rw [Nat.add_mul] at h1
+    omega
+
+/-- the offsets of `seqWr` are the block locations of `seqAlloc` (the layout model of
+    `layout_disjoint` / `layout_inside`) over the block counts of the pieces -/
+theorem seqWr_offsets (bs s : Nat) (ds : List Bytes) :
+    (seqWr bs s ds).map (·.off) = (seqAlloc s (ds.map fun b => blocksFor b.length bs)).map (fun e => e.1 * bs) := by
+  induction ds generalizing s with
+  | nil => rfl
+  | cons b r ih => simp [seqWr, seqAlloc, ih]
+
+theorem terminator_length : terminator.length = 2048 := by simp [terminator]
+
+theorem placed_writes_disjoint (i : ImageIn) (hbs : 2048 ≤ i.bs) (hp : i.pvd.WF) (hpl : i.Placed) :
+    i.writes.Pairwise WrDisjoint := by
+  have hb0 : 0 < i.bs := by omega
+  have hmidB : ∀ w ∈ i.mid, 18 * i.bs ≤ w.off := by
+    intro w hw
+    rw [hpl] at hw
+    exact seqWr_bounds i.bs _ _ w hw
+  have hmidP : i.mid.Pairwise WrDisjoint := by
+    rw [hpl]
+    exact (seqWr_pairwise i.bs hb0 _ _).imp (fun h => Or.inl h)
+  have hpl' := encodePVD_length i.pvd hp
+  unfold ImageIn.writes
+  rw [List.pairwise_cons, List.pairwise_append]
+  refine ⟨?_, hmidP, ?_, ?_⟩
+  · intro w hw
+    left
+    simp only [List.mem_append, List.mem_cons, List.not_mem_nil, or_false] at hw
+    simp only [zeros_length, Nat.zero_add]
+    rcases hw with hw | rfl | rfl
+    · have := hmidB w hw; omega
+    · simp
+    · simp; omega
+  · simp only [List.pairwise_cons, List.mem_singleton, List.not_mem_nil, List.Pairwise.nil, and_true]
+    refine ⟨?_, by intro a h; exact h.elim⟩
+    intro w hw
+    subst hw
+    left
+    simp only [hpl']
+    omega
+  · intro a ha b hb
+    right
+    have := hmidB a ha
+    simp only [List.mem_cons, List.not_mem_nil, or_false] at hb
+    rcases hb with rfl | rfl
+    · simp only [hpl']; omega
+    · simp only [terminator_length]; omega
+
+theorem seqWr_data (bs s : Nat) (ds : List Bytes) : (seqWr bs s ds).map (·.data) = ds := by
+  induction ds generalizing s with
+  | nil => rfl
+  | cons b r ih => simp [seqWr, ih]
+
+theorem wr_list_ext (a b : List Wr) (h1 : a.map (·.off) = b.map (·.off)) (h2 : a.map (·.data) = b.map (·.data)) : a = b := by
+  induction a generalizing b with
+  | nil => cases b with
+    | nil => rfl
+    | cons y ys => simp at h1
+  | cons x xs ih =>
+    cases b with
+    | nil => simp at h1
+    | cons y ys =>
+      simp only [List.map_cons, List.cons.injEq] at h1 h2
+      have hx : x = y := by
+        cases x; cases y; simp only at h1 h2; simp [h1.1, h2.1]
+      rw [hx, ih ys h1.2 h2.2]
+
+/-- `Placed` is a statement about locations only: the offsets are those of the layout model -/
+theorem placed_of_offsets (i : ImageIn)
+    (h : i.mid.map (·.off) =
+      (seqAlloc (dataStartSector + 2) ((i.mid.map (·.data)).map fun b => blocksFor b.length i.bs)).map (fun e => e.1 * i.bs)) :
+    i.Placed := by
+  unfold ImageIn.Placed
+  apply wr_list_ext
+  · rw [seqWr_offsets]; exact h
+  · rw [seqWr_data]
+
+theorem padBlock_length (bs : Nat) (b : Bytes) : (padBlock bs b).length = b.length + (bs - b.length % bs) % bs := by
+  simp [padBlock]
+
 end Diskfs.Iso
